@@ -37,7 +37,7 @@ type propDef struct {
 
 var props = map[string]propDef{
 	"C20": {scenarios: conc.C20Scenarios, quick: []int{0, 1, 2}, thorough: []int{0, 1, 2, 3, -1}, quickS: 40, thoroughS: 300, pre: c20Sequential,
-		rule: "sequential part: BFS over all histories of {Write through core i, derive a core (With) from core i, bursts of capacity-1 / capacity / 2*capacity+1 writes through core i} for up to 3 cores; every history is run with GetLogs() called only at its end and with GetLogs() called after every event; each time it, and the lines printed by WriteLogs, must equal, newest first, the last min(total, capacity) entries written through any core; thorough additionally recompiles the package with BufferSize=4 (overlay, one constant changed) so that wrap-around histories are enumerated completely. Concurrent part: every schedule with at most N preemptions of 2-3 threads writing through the root core and derived cores, optional reader: final buffer holds every entry exactly once in an order consistent with each thread's program order, concurrent reads never duplicate or miss a finished write"},
+		rule: "sequential part: BFS over all histories of {Write through core i, derive a core (With) from core i, bursts of capacity-1 / capacity / 2*capacity+1 writes through core i} for up to 3 cores; every history is run with GetLogs() called only at its end and with GetLogs() called after every event; each time it, and the lines printed by WriteLogs, must equal, newest first, the last min(total, capacity) entries written through any core; the pages served by the HTTP handlers (first, repeated, and after a request whose client went away) must show the same entries of their own buffer; thorough additionally recompiles the package with BufferSize=4 (overlay, one constant changed) so that wrap-around histories are enumerated completely. Concurrent part: every schedule with at most N preemptions of 2-3 threads writing through the root core and derived cores, optional reader: final buffer holds every entry exactly once in an order consistent with each thread's program order, concurrent reads never duplicate or miss a finished write"},
 	"C16": {scenarios: conc.C16Scenarios, quick: []int{0, 1, 2}, thorough: []int{0, 1, 2, 3, 4}, quickS: 60, thoroughS: 600,
 		rule: "every schedule (scheduling point before every lock acquisition of the trie, the node stores, the change collector, the transaction/block/state caches and the LRUs; the SaveChanges worker goroutine is adopted by its caller's logical thread) of each 2-3 thread scenario with at most N preemptions, N iterated; per schedule brute-force linearizability: the observed results and the final root/content/missing-key count must equal those of some sequential execution (on a fresh real trie) of the same operations in an order consistent with the recorded call/return order; no deadlock (writer-preferring RWMutex modelled); non-trivial = distinct observed outcome"},
 	"C08": {scenarios: conc.C08Scenarios, quick: []int{0, 1, 2}, thorough: []int{0, 1, 2, 3, -1}, quickS: 40, thoroughS: 600,
@@ -164,6 +164,7 @@ func main() {
 // in the small-buffer build (mcsched.buf4).
 func c20Sequential(rep *rt.Report, tier rt.Tier) {
 	absorbSeq(rep, lg.SeqPart(rep, tier))
+	lg.HandlerPart(rep)
 	small := os.Args[0] + ".buf4"
 	if _, err := os.Stat(small); err == nil {
 		out, err := exec.Command(small, "--seq", "C20", string(tier)).Output()
